@@ -200,6 +200,19 @@ def inline_unknown(fns, built, known):
         if f.get("exp"):
             continue        # macro/derive generated
         helpers.add(f["key"])
+    # a known function that moved (free function -> associated function, other module of the same crate) is not a new helper: an
+    # unknown key whose last segment equals that of exactly one known function that is gone is taken to be that function
+    present = set(norm_key(f["key"]) for f in fns)
+    gone_known = [k for k in known if k not in present]
+    by_last = {}
+    for k in gone_known:
+        by_last.setdefault(k.rsplit("::", 1)[-1], []).append(k)
+    report["moved"] = {}
+    for h in sorted(helpers):
+        cands = by_last.get(h.rsplit("::", 1)[-1], [])
+        if len(cands) == 1 and not cands[0].endswith("}") and by_key[h].get("argc") is not None:
+            report["moved"][cands[0]] = h
+            helpers.discard(h)
     for h in sorted(helpers):
         if reaches_self(h, by_key, helpers):
             helpers.discard(h)
